@@ -24,7 +24,12 @@ from harness.common.framework import CorrResult
 
 PROP_ID = "C06"
 COQ_PROPS = "theories/Props/C06.v"
-COQ_EXTRA = ["gen/C06_gen.v"]
+COQ_EXTRA = ["gen/C06_gen.v",
+             # C06b, the composition layer (codec C01/C02 + circuit C04/C05 plugged into this routing model)
+             "gen/Template_gen.v", "theories/Compose/Glue.v", "theories/Compose/GlueProofs.v",
+             "theories/Compose/Live.v", "theories/Compose/CircuitBridge.v", "theories/Props/C06b.v",
+             "gen/C06b_gen.v"]
+COQ_PROPS_B = "theories/Props/C06b.v"
 EXTRACT = ("theories/Extract/ExC06.v", "c06_driver.ml")
 TRUSTED = [
     "modelled by hand: UDPProxyProtocol.datagram_received/_parse_socks_datagram, SOCKS5UDPTransport.serialize, "
@@ -52,6 +57,31 @@ TRUSTED = [
     "distribution); the model's outcome OConsumed covers them with an empty send list",
     "the decoding oracle's mi_consumed flag is obtained from the live AddonManager.handle_lludp_message with no addon "
     "loaded (so it followed /repo's repair 40d86e5 of the empty-RLV-command-list swallow without a model change)",
+    "C06b (theories/Compose/*.v, theories/Props/C06b.v; built and checked with C06): the oracle is instantiated with "
+    "decode_real current_dict touch = the C01/C02 codec model on the live template (gen/Template_gen.v) + the closed form "
+    "prepare_noinj of an injection-free ProxiedCircuit.  Proved, all 'Closed under the global context' (re-checked on every "
+    "run, suite 'C06b composition'): C06b_oracle_on_conformant, C06b_circuit_reads_succeed, C06b_E1_viewer_to_sim, "
+    "C06b_E1_byte_identical, C06b_E1_handshake, C06b_E1_empty_ack_withheld, C06b_E2_sim_to_viewer, C06b_E2_byte_identical, "
+    "C06b_E2_reachable, "
+    "C06b_E1_any_datagram, C06b_E2_any_datagram, C06b_E3_from_sim, C06b_E3_from_viewer, C06b_E3_undecodable, "
+    "C06b_E3_isolated, C06b_no_injection_reachable, C06b_no_injection_identity, C06b_no_injection_step, "
+    "C06b_circuit_bridge, C06b_oracle_out_is_circuit",
+    "C06b, modelled by hand in Compose/Glue.v: which block reads the router and AddonManager perform on a decoded "
+    "message (UseCircuitCode.CircuitCode[0].SessionID as UUID.int, ChatFromViewer.ChatData.Channel == COMMAND_CHANNEL = 524, "
+    "PacketAck.Packets[*].ID, StartPingCheck.PingID.OldestUnacked), prepare_message's ACK-flag normalisation, which lazy-parse "
+    "state reaches circuit.send (needs_body names parsed; other names parsed iff an internal subscriber read them - the "
+    "theorems hold for every such 'touch' predicate), and the conversions between the three developments' message records "
+    "(to_rmsg / apply_emit in Compose/CircuitBridge.v).  Tied to the code on every run by the generated obligation "
+    "gen/C06b_gen.v:C06b_gen_oracle_matches (decode_real = live deserializer + live AddonManager + fresh live ProxiedCircuit on "
+    "~100 structured, damaged and hand-picked payloads, body unparsed and parsed-first)",
+    "C06b residual hypotheses, visible in the theorem statements: E1/E2 exclude a command-channel chat (consumed by the proxy), "
+    "the empty PacketAck (proved withheld: C06b_E1_empty_ack_withheld) and, on the simulator side, names on the UDP ban list; "
+    "the delivered bytes are the encoding of the message with its ACK flag made consistent with its ack list (byte-identical "
+    "whenever the sender's flag was consistent); C06b_E*_any_datagram inherit C02's recode_within_cap for the parsed state; "
+    "mi_out = None conflates 'prepare_message returned False' with 'the serializer raised' (the theorems show neither happens "
+    "for conformant messages); 'nothing injected' means circuit states satisfying Quiet (every state reached from a fresh "
+    "circuit by Recv/Tick events: C06b_no_injection_reachable) - traffic on circuits the proxy has injected into is C04/C05's "
+    "subject and is not composed here",
 ]
 
 UCC = "UseCircuitCode"
@@ -983,7 +1013,8 @@ def gen_scenario(ctx, impl: Impl, P: Payloads, max_len: int, poison_rate=0.04) -
                 if a not in regs:
                     break
             regs.append(a)
-        sid = rng.choice((1, 2, rng.getrandbits(128)))
+        # session ids identify a session (they are UUIDs): never give two sessions the same id
+        sid = rng.choice([x for x in (1, 2) if x not in {s["sid"] for s in sessions}] + [rng.getrandbits(128)])
         sessions.append({"sid": sid, "regions": [list(a) for a in regs]})
         used.update(regs)
     protos = []
@@ -1163,10 +1194,181 @@ def generate(ctx):
     coq_dir = os.path.join(os.path.dirname(os.path.dirname(os.path.dirname(os.path.abspath(__file__)))), "coq")
     tbl, banned = c06_gen.emit(coq_dir)
     ctx.notes.append("message.xml: %d entries, %d banned from UDP" % (len(tbl), len(banned)))
-    return [{"name": "gen/C06_gen.v:C06_gen_message_xml_matches",
-             "detail": "live message.xml flavor table (%d entries, %d banned) = the model's table; the 8 message "
-                       "names the model special-cases exist in the live template; no flavor-less entry is a "
-                       "template message" % (len(tbl), len(banned))}]
+    obl = [{"name": "gen/C06_gen.v:C06_gen_message_xml_matches",
+            "detail": "live message.xml flavor table (%d entries, %d banned) = the model's table; the 8 message "
+                      "names the model special-cases exist in the live template; no flavor-less entry is a "
+                      "template message" % (len(tbl), len(banned))}]
+    # C06b: the composition layer needs the live template dictionary (shared with C01/C02) ...
+    from harness.translate import template as tmpl_tr
+    _msgs, tobl = tmpl_tr.generate(ctx)
+    obl += tobl
+    # ... and is tied to the live code by a generated table of (payload, what the real code answers)
+    n, stats = c06b_emit(coq_dir, ctx.seed)
+    _C06B["cases"], _C06B["stats"] = n, stats
+    ctx.notes.append("C06b oracle table: %d payloads %r" % (n, stats))
+    obl.append({"name": "gen/C06b_gen.v:C06b_gen_oracle_matches",
+                "detail": "decode_real current_dict (Compose/Glue.v) = live UDPMessageDeserializer + Message.blocks + "
+                          "AddonManager.handle_lludp_message + fresh ProxiedCircuit.send on %d payloads %r, by vm_compute"
+                          % (n, stats)})
+    return obl
+
+
+# ---------------------------------------------------------------------------------------
+# C06b: composition layer (theories/Compose, theories/Props/C06b.v)
+
+_C06B = {"cases": 0, "stats": {}}
+_C06B_PARSED_BEFORE_SEND = NEEDS_BODY + ("ChatFromViewer", "ChatFromSimulator")
+
+
+def _nl(bs) -> str:
+    return "[" + ";".join(str(x) for x in bs) + "]"
+
+
+def _optl(bs) -> str:
+    return "None" if bs is None else "Some " + _nl(bs)
+
+
+def c06b_emit(coq_dir: str, seed: int, n_random: int = 60):
+    """writes coq/gen/C06b_gen.v: payloads with the live code's answers, and the obligation that the composed
+    Coq oracle decode_real gives the same answers.  Deterministic in (repo, seed)."""
+    import random
+    impl = Impl()
+    try:
+        rng = random.Random((seed << 8) ^ 0xC06B)
+        P = Payloads(impl, rng, all_types=False)
+        UUID = impl.UUID
+        pl = [P.ucc(7), P.ucc(rng.getrandbits(128))]
+        for ch in (524, 0, -1, 2147483647):
+            m = P.Message("ChatFromViewer", P.Block("AgentData", AgentID=UUID(int=77), SessionID=UUID(int=5)),
+                          P.Block("ChatData", Message="cmd x", Type=1, Channel=ch), **P._hdr({}))
+            pl.append(P.ser(m))
+        pl += [P.rlv_empty(), P.rlv_cmd(), P.chat_in(), P.ping(), P.ping()]
+        pl += [P.packet_ack(k) for k in (1, 2, 3)]
+        pl += [bytes([0, 0, 0, 0, 3, 0, 255, 255, 255, 251, 0]),                          # empty PacketAck
+               bytes([16, 0, 0, 0, 3, 0, 255, 255, 255, 251, 0, 0, 0, 0, 9, 1]),          # ... with one appended ack
+               bytes([16, 0, 0, 0, 5, 0, 2, 9, 0]),                                        # ACK flag, zero acks
+               bytes([128, 0, 0, 0, 7, 0, 255, 255, 0, 1, 80, 0, 16, 0, 16, 3, 0, 1, 104, 105, 0, 1, 1, 0, 4]),  # non-canonical zero-coding
+               bytes([0, 0, 0, 0, 5, 0, 2, 9, 170, 187]),                                  # trailing junk
+               bytes([0, 0, 0, 0, 1, 0, 255, 255, 255, 251, 2, 9, 0, 0, 0])]               # truncated PacketAck body
+        for _ in range(n_random):
+            b = P.valid_out() if rng.random() < 0.5 else P.valid_in()
+            pl.append(b)
+            if rng.random() < 0.5:
+                pl.append(P.damage(b))
+        seen, cases = set(), []
+        stats = {"undecodable": 0, "body_unparseable": 0, "decoded": 0, "reencoded_differently_when_parsed": 0}
+        for b in pl:
+            if b in seen or len(b) > 400:
+                continue
+            seen.add(b)
+            r = impl.oracle(b)
+            if r is None:
+                cases.append("(%s, None)" % _nl(b))
+                stats["undecodable"] += 1
+                continue
+            name, body_ok, sid, out, consumed = r
+            out_all = "None"
+            if body_ok:
+                o2 = impl._circuit_out(b, True)
+                out_all = "Some (%s)" % _optl(o2)
+                if o2 != out:
+                    stats["reencoded_differently_when_parsed"] += 1
+                if name in _C06B_PARSED_BEFORE_SEND:
+                    out = o2    # handle_proxied_packet / AddonManager read a block of these before the send
+                stats["decoded"] += 1
+            else:
+                stats["body_unparseable"] += 1
+            cases.append("(%s, Some (%s, %s, %d, %s, %s, %s))" % (
+                _nl(b), _nl(name.encode("ascii")), "true" if body_ok else "false", sid,
+                "true" if consumed else "false", _optl(out), out_all))
+    finally:
+        impl.close()
+    txt = _C06B_TEMPLATE % ";\n ".join(cases)
+    p = os.path.join(coq_dir, "gen", "C06b_gen.v")
+    old = open(p).read() if os.path.exists(p) else None
+    if old != txt:
+        tmp = p + ".tmp%d" % os.getpid()
+        with open(tmp, "w") as f:
+            f.write(txt)
+        os.replace(tmp, p)
+    return len(cases), stats
+
+
+_C06B_TEMPLATE = """(* GENERATED by harness/props/c06.py (c06b_emit) from the live proxy code - do not edit.
+   Each case: an LLUDP payload and what the REAL code answers for it - UDPMessageDeserializer
+   (deferred parsing), Message.blocks, the UseCircuitCode session id, AddonManager.handle_lludp_message
+   with no addon, and the bytes a fresh ProxiedCircuit.send + UDPMessageSerializer emit, once in the
+   lazy-parse state the addon-free proxy produces by itself (touch_none) and once parsed first
+   (touch_all; only when the body parses).  The obligation: the composed Coq oracle
+   [decode_real current_dict] (Compose/Glue.v) gives the same answers. *)
+From Coq Require Import NArith List Bool.
+From HV Require Import Base.Bytes Tmpl.Template Tmpl.Codec Proxy.Socks Proxy.UdpProxy Compose.Glue.
+From HVgen Require Import Template_gen.
+Import ListNotations.
+Local Open Scope N_scope.
+
+Definition c06b_expect := option (list N * bool * N * bool * option (list N) * option (option (list N))).
+
+Definition c06b_obeq (a b : option (list N)) : bool :=
+  match a, b with
+  | None, None => true
+  | Some x, Some y => bytes_eqb x y
+  | _, _ => false
+  end.
+
+Definition c06b_check (c : list N * c06b_expect) : bool :=
+  match decode_real current_dict touch_none (fst c), decode_real current_dict touch_all (fst c), snd c with
+  | None, None, None => true
+  | Some a, Some b, Some (nm, ok, sid, csm, out_n, out_a) =>
+      bytes_eqb (mi_name a) nm && Bool.eqb (mi_body_ok a) ok && (mi_sid a =? sid)
+      && Bool.eqb (mi_consumed a) csm && c06b_obeq (mi_out a) out_n
+      && match out_a with Some o => c06b_obeq (mi_out b) o | None => true end
+  | _, _, _ => false
+  end.
+
+Definition c06b_cases : list (list N * c06b_expect) := [
+ %s
+].
+
+(* the indices of the cases on which model and code differ (shown by the error message if there are any) *)
+Definition c06b_failing : list nat :=
+  map fst (filter (fun ic => negb (c06b_check (snd ic))) (combine (seq 0 (length c06b_cases)) c06b_cases)).
+
+Theorem C06b_gen_oracle_matches : c06b_failing = [].
+Proof. vm_compute. reflexivity. Qed.
+"""
+
+
+def correspond_c06b(ctx) -> CorrResult:
+    """the composition theorems of Props/C06b.v are not COQ_PROPS of this module, so their `Print Assumptions`
+    output is checked here: every one must be closed under the global context"""
+    from harness.common import framework
+    res = CorrResult(suite="C06b composition: Print Assumptions of theories/Props/C06b.v + generated oracle table",
+                     rule="every theorem of Props/C06b.v must print 'Closed under the global context'; the generated "
+                          "obligation gen/C06b_gen.v compares decode_real with the live code on the payload table "
+                          "(counted as evaluations; checked by vm_compute inside Coq, a mismatch fails the build); "
+                          "non-trivial = payload the live deserializer accepts")
+    try:
+        ok, assumptions, out = framework.print_assumptions(COQ_PROPS_B, ctx.scratch)
+    except Exception as e:
+        ok, assumptions, out = False, {}, "print_assumptions raised %s: %s" % (type(e).__name__, e)
+    src = framework.strip_comments(open(os.path.join(framework.COQ, COQ_PROPS_B)).read())
+    import re
+    thms = re.findall(r"(?m)^\s*Theorem\s+([A-Za-z0-9_']+)", src)
+    if not ok:
+        res.disagreements.append({"what": "Props/C06b.v did not compile or a Print Assumptions is missing", "log": out[-600:]})
+    for t in thms:
+        ax = assumptions.get(t)
+        if ax is None:
+            res.disagreements.append({"theorem": t, "what": "no Print Assumptions output"})
+        elif ax and not all(framework.axiom_allowed(a) for a in ax):
+            res.disagreements.append({"theorem": t, "what": "depends on axioms", "axioms": ax})
+    st = _C06B["stats"]
+    res.evaluations = len(thms) + _C06B["cases"]
+    res.distinct_nontrivial = st.get("decoded", 0) + st.get("body_unparseable", 0)
+    res.distribution = {"theorems_closed": len([t for t in thms if assumptions.get(t) == []]), "oracle_table": st}
+    res.samples = thms[:4]
+    return res
 
 
 def _corpus_cases():
@@ -1368,6 +1570,7 @@ def correspond(ctx):
         # findings already reported for the unchanged tree go last, so that a new failure is what gets replayed
         res.impl_violations.sort(key=lambda v: v.get("class") in (POISON_CLASS, RLV_CLASS))
         out.append(res)
+        out.append(correspond_c06b(ctx))
         return out
     finally:
         impl.close()
